@@ -9,7 +9,9 @@
      naming_lint_decl_exact       naming rules: EQUAL when declarations are left as written
      naming_lint_recase_refuted   ... and NOT preserved when a declaration is re-cased
      lints_exact / request_exact  declarations left as written: the whole report is EQUAL
-     unpurged_exact_key_refuted   the purge rule before /repo ef936ba (key = the spelling) is case-sensitive *)
+     unpurged_exact_key_refuted   the purge rule before /repo ef936ba (key = the spelling) is case-sensitive
+   The purge and the inherited checker are the repaired ones of C16 (a method is decided on the method node's own
+   subtree): the relations below are carried through the two subtree scans. *)
 From GoldV Require Import Base Tokens Keywords Lexer AstKinds Tree Recase RecaseBase RecaseOutline Lints.
 
 (* ---------- to_uppercase as far as observable ---------- *)
@@ -91,12 +93,48 @@ Proof.
   destruct (attr_tok_rel K_op _ _ H) as [|t t' Ht]; [reflexivity|]. rewrite (ts_ty _ _ Ht). reflexivity.
 Qed.
 
-Lemma inh_names_sim cm cm' n n' : node_sim cm cm' -> node_sim n n' -> inh_names cm n = inh_names cm' n'.
+Lemma is_ident_terminal_sim n n' : node_sim n n' -> is_ident_terminal n = is_ident_terminal n'.
 Proof.
-  intros Hc H. unfold inh_names. destruct (child_sim 0 _ _ H) as [|e e' He]; [reflexivity|].
-  rewrite <- (node_sim_is_kind _ _ _ He). f_equal.
-  destruct (child_sim 1 _ _ He) as [|r r' Hr]; [reflexivity|].
-  rewrite (upper_rs_ci _ _ (node_sim_ident _ _ Hr)), (upper_rs_ci _ _ (node_sim_ident _ _ Hc)). reflexivity.
+  intro H. unfold is_ident_terminal. rewrite <- (node_sim_is_kind _ _ _ H). f_equal.
+  destruct (attr_tok_rel K_token _ _ H) as [|t t' Ht]; [reflexivity|]. rewrite (ts_ty _ _ Ht). reflexivity.
+Qed.
+
+Lemma is_self_terminal_sim n n' : node_sim n n' -> is_self_terminal n = is_self_terminal n'.
+Proof.
+  intro H. unfold is_self_terminal. rewrite <- (node_sim_is_kind _ _ _ H). f_equal.
+  destruct (attr_tok_rel K_token _ _ H) as [|t t' Ht]; [reflexivity|].
+  rewrite (ts_ty _ _ Ht), (upper_rs_ci _ _ (ts_val _ _ Ht)). reflexivity.
+Qed.
+
+Lemma is_method_sim n n' : node_sim n n' -> is_method n = is_method n'.
+Proof. intro H. unfold is_method. rewrite <- !(node_sim_is_kind _ _ _ H). reflexivity. Qed.
+
+Lemma inh_self_call_sim u n n' : node_sim n n' -> inh_self_call u n = inh_self_call u n'.
+Proof.
+  intro H. unfold inh_self_call. rewrite <- (is_inherited_op_sim _ _ H). f_equal.
+  destruct (child_sim 0 _ _ H) as [|e e' He]; [reflexivity|].
+  rewrite <- (node_sim_is_kind _ _ _ He). f_equal; [f_equal|].
+  - destruct (attr_tok_rel K_op _ _ He) as [|t t' Ht]; [reflexivity|]. rewrite (ts_ty _ _ Ht). reflexivity.
+  - destruct (child_sim 0 _ _ He) as [|l l' Hl]; [reflexivity|].
+    destruct (child_sim 1 _ _ He) as [|r r' Hr]; [reflexivity|].
+    rewrite <- (is_self_terminal_sim _ _ Hl), <- !(node_sim_is_kind _ _ _ Hr),
+            (upper_rs_ci _ _ (node_sim_ident _ _ Hr)). reflexivity.
+Qed.
+
+Lemma inh_scan_eq u n :
+  inh_scan u n = existsb (fun c => (is_pass_terminal c || inh_self_call u c || inh_scan u c)) (nchildren n).
+Proof.
+  destruct n as [k id raw rg at_ ch]. cbn [inh_scan nchildren].
+  induction ch as [|c ch IH]; [reflexivity|]. cbn [existsb]. rewrite IH. reflexivity.
+Qed.
+
+Lemma inh_scan_sim u : forall n n', node_sim n n' -> inh_scan u n = inh_scan u n'.
+Proof.
+  apply (node_sim_ind' (fun n n' => inh_scan u n = inh_scan u n')).
+  intros k id id' raw rg at_ at' ch ch' _ _ Hch IH. rewrite !inh_scan_eq. cbn [nchildren].
+  induction Hch as [|c c' l l' Hc Hl IHl]; [reflexivity|]. inversion IH; subst. cbn [existsb].
+  rewrite <- (is_pass_terminal_sim _ _ Hc), <- (inh_self_call_sim u _ _ Hc). f_equal; [f_equal; assumption|].
+  apply IHl. assumption.
 Qed.
 
 Lemma inh_sel_range_sim m m' : node_sim m m' -> inh_sel_range m = inh_sel_range m'.
@@ -252,158 +290,98 @@ Section V2.
   Hypothesis NR_children : forall n n', NR n n' -> Forall2 NR (nchildren n) (nchildren n').
   Hypothesis NR_name : forall n n', NR n n' -> decl_kind (nkind n) = true -> RN (nident n) (nident n').
 
+  Definition out_rel : list diag -> list diag -> Prop := Forall2 (ldiag_rel RN).
+
   (* --- the purge rule --- *)
-  Definition pinfo_rel (i i' : pinfo) : Prop :=
-    RN (fst (fst i)) (fst (fst i')) /\ snd (fst i) = snd (fst i') /\ snd i = snd i'.
-  (* the maps have EQUAL keys *)
-  Definition pmap_rel (m m' : pmap) : Prop :=
-    Forall2 (fun e e' : str * pinfo => fst e = fst e' /\ pinfo_rel (snd e) (snd e')) m m'.
-  Definition unp_rel (st st' : unp_state) : Prop :=
-    pmap_rel (fst st) (fst st') /\ Forall2 (ldiag_rel RN) (snd st) (snd st').
+  (* registered declarations: printed names related, EQUAL ignoring case, equal ranges; purged names equal *)
+  Definition pinfo_rel (e e' : str * range) : Prop :=
+    RN (fst e) (fst e') /\ upper (fst e) = upper (fst e') /\ snd e = snd e'.
+  Definition pscan_rel (s s' : pscan) : Prop := Forall2 pinfo_rel (fst s) (fst s') /\ snd s = snd s'.
 
-  Lemma pinsert_rel k v v' m m' : pmap_rel m m' -> pinfo_rel v v' -> pmap_rel (ainsert k v m) (ainsert k v' m').
+  Lemma unp_local_rel n n' s s' : NR n n' -> pscan_rel s s' -> pscan_rel (unp_local n s) (unp_local n' s').
   Proof.
-    intros Hm Hv. induction Hm as [|[a w] [a' w'] m m' [Ha Hw] Hm IH]; cbn [ainsert].
-    - constructor; [split; [reflexivity|exact Hv]|constructor].
-    - cbn [fst snd] in Ha, Hw. subst a'. destruct (str_eqb k a).
-      + constructor; [split; [reflexivity|exact Hv]|exact Hm].
-      + constructor; [split; [reflexivity|exact Hw]|exact IH].
+    intros Hn [A B]. pose proof (NR_sim _ _ Hn) as Hs. unfold unp_local. rewrite <- (is_tvba_local_sim _ _ Hs).
+    destruct (is_tvba_local n) eqn:E; [|split; assumption]. split; cbn [fst snd]; [|exact B].
+    apply Forall2_app2; [exact A|]. constructor; [|constructor].
+    repeat split; cbn [fst snd]; [|apply upper_ident_sim; exact Hs|apply ident_range_sim; exact Hs].
+    apply NR_name; [exact Hn|]. unfold is_tvba_local in E. apply andb_true_iff in E as [E _].
+    eapply is_kind_decl; [exact E|reflexivity].
   Qed.
 
-  Lemma amark_rel k m m' : pmap_rel m m' -> pmap_rel (amark k m) (amark k m').
+  Lemma unp_call_rel n n' s s' : NR n n' -> pscan_rel s s' -> pscan_rel (unp_call n s) (unp_call n' s').
   Proof.
-    unfold amark. induction 1 as [|[a w] [a' w'] m m' [Ha Hw] Hm IH]; cbn [map]; constructor; [|exact IH].
-    cbn [fst snd] in *. subst a'. destruct (str_eqb k a); cbn [fst snd]; split; auto.
-    destruct Hw as [A [B C]]. repeat split; cbn [fst snd]; auto.
+    intros Hn [A B]. pose proof (NR_sim _ _ Hn) as Hs. unfold unp_call. rewrite <- (is_purge_call_sim _ _ Hs).
+    destruct (is_purge_call n); [|split; assumption].
+    destruct (child_sim 0 _ _ Hs) as [|a a' Ha]; [split; assumption|].
+    rewrite <- (is_ident_terminal_sim _ _ Ha). destruct (is_ident_terminal a); [|split; assumption].
+    split; cbn [fst snd]; [exact A|]. rewrite (upper_ident_sim _ _ Ha), B. reflexivity.
   Qed.
 
-  Lemma unpurged_diags_rel m m' : pmap_rel m m' -> Forall2 (ldiag_rel RN) (unpurged_diags m) (unpurged_diags m').
+  Lemma unp_scan_eq n s :
+    unp_scan n s = fold_left (fun acc c => unp_scan c (unp_call c (unp_local c acc))) (nchildren n) s.
   Proof.
-    unfold unpurged_diags. induction 1 as [|[a w] [a' w'] m m' [Ha [A [B C]]] Hm IH]; cbn [flat_map]; [constructor|].
-    cbn [fst snd] in *. rewrite <- C. destruct (snd w); cbn [app]; [exact IH|].
+    destruct n as [k id raw rg at_ ch]. cbn [unp_scan nchildren]. revert s.
+    induction ch as [|c ch IH]; intro s; [reflexivity|]. cbn [fold_left]. apply IH.
+  Qed.
+
+  Lemma unp_scan_rel : forall n n', NR n n' -> forall s s', pscan_rel s s' ->
+    pscan_rel (unp_scan n s) (unp_scan n' s').
+  Proof.
+    intro n. pattern n. apply node_ind'. clear n. intros k id raw rg at_ ch IHn n' Hn s s' Hs.
+    rewrite !unp_scan_eq. pose proof (NR_children _ _ Hn) as HC. cbn [nchildren] in HC |- *. clear Hn.
+    revert IHn s s' Hs. induction HC as [|c c' l l' Hcc Hl IH]; intros IHn s s' Hs; cbn [fold_left]; [exact Hs|].
+    inversion IHn; subst. apply IH; [assumption|]. apply H1; [exact Hcc|].
+    apply unp_call_rel; [exact Hcc|]. apply unp_local_rel; assumption.
+  Qed.
+
+  Lemma unpurged_diags_rel s s' : pscan_rel s s' -> out_rel (unpurged_diags s) (unpurged_diags s').
+  Proof.
+    intros [A B]. unfold unpurged_diags, is_purged_name. rewrite <- B. clear B.
+    induction A as [|e e' l l' [H1 [H2 H3]] Hl IH]; cbn [flat_map]; [constructor|].
+    rewrite <- H2. destruct (existsb (str_eqb (upper (fst e))) (snd s)); cbn [app]; [exact IH|].
     constructor; [|exact IH]. repeat split; cbn [dcls dsev drng dkey]; auto.
   Qed.
 
-  Lemma unp_flush_rel st st' : unp_rel st st' ->
-    unp_rel (([] : pmap), snd st ++ unpurged_diags (fst st)) (([] : pmap), snd st' ++ unpurged_diags (fst st')).
+  Lemma unp_visit_rel c c' anc anc' n n' o o' : NR n n' -> out_rel o o' ->
+    out_rel (unp_visit c anc n o) (unp_visit c' anc' n' o').
   Proof.
-    intros [H1 H2]. split; cbn [fst snd]; [constructor|].
-    apply Forall2_app2; [exact H2|apply unpurged_diags_rel; exact H1].
+    intros Hn Ho. unfold unp_visit. rewrite <- (is_method_sim _ _ (NR_sim _ _ Hn)).
+    destruct (is_method n); [|exact Ho]. apply Forall2_app2; [exact Ho|].
+    apply unpurged_diags_rel. apply unp_scan_rel; [exact Hn|]. split; [constructor|reflexivity].
   Qed.
 
-  Lemma unp_visit_rel c c' anc anc' n n' st st' : NR n n' -> unp_rel st st' ->
-    unp_rel (unp_visit upper c anc n st) (unp_visit upper c' anc' n' st').
+  Lemma unpurged_lint_rel a a' : NR a a' -> out_rel (unpurged_lint a) (unpurged_lint a').
   Proof.
-    intros Hn Hst. pose proof (NR_sim _ _ Hn) as Hs. unfold unp_visit.
-    (* method declaration *)
-    assert (H1 : unp_rel (unp_method_decl n st) (unp_method_decl n' st')).
-    { unfold unp_method_decl. cbv zeta. rewrite <- !(node_sim_is_kind _ _ _ Hs).
-      assert (H0 : unp_rel (if is_kind KAstProcedure n then (([] : pmap), snd st ++ unpurged_diags (fst st)) else st)
-                           (if is_kind KAstProcedure n then (([] : pmap), snd st' ++ unpurged_diags (fst st')) else st')).
-      { destruct (is_kind KAstProcedure n); [apply unp_flush_rel|]; exact Hst. }
-      revert H0. generalize (if is_kind KAstProcedure n then (([] : pmap), snd st ++ unpurged_diags (fst st)) else st)
-                            (if is_kind KAstProcedure n then (([] : pmap), snd st' ++ unpurged_diags (fst st')) else st').
-      intros s1 s1' H0. destruct (is_kind KAstFunction n); [apply unp_flush_rel|]; exact H0. }
-    revert H1. generalize (unp_method_decl n st) (unp_method_decl n' st'). intros s1 s1' H1.
-    (* local declaration *)
-    assert (H2 : unp_rel (unp_local upper n s1) (unp_local upper n' s1')).
-    { unfold unp_local. rewrite <- (is_tvba_local_sim _ _ Hs).
-      destruct (is_tvba_local n) eqn:E; [|exact H1]. destruct H1 as [A B]. split; cbn [fst snd]; [|exact B].
-      rewrite <- (upper_ident_sim _ _ Hs). apply pinsert_rel; [exact A|].
-      repeat split; cbn [fst snd]; [|apply ident_range_sim; exact Hs].
-      apply NR_name; [exact Hn|]. unfold is_tvba_local in E. apply andb_true_iff in E as [E _].
-      eapply is_kind_decl; [exact E|reflexivity]. }
-    revert H2. generalize (unp_local upper n s1) (unp_local upper n' s1'). intros s2 s2' H2.
-    (* purge call *)
-    unfold unp_call. rewrite <- (is_purge_call_sim _ _ Hs). destruct (is_purge_call n); [|exact H2].
-    destruct (child_sim 0 _ _ Hs) as [|a a' Ha]; [exact H2|].
-    destruct H2 as [A B]. split; cbn [fst snd]; [|exact B].
-    rewrite <- (upper_ident_sim _ _ Ha). apply amark_rel. exact A.
-  Qed.
-
-  Lemma unp_end_rel st st' : unp_rel st st' -> unp_rel (unp_end st) (unp_end st').
-  Proof.
-    intros [H1 H2]. split; cbn [unp_end fst snd]; [exact H1|].
-    apply Forall2_app2; [exact H2|apply unpurged_diags_rel; exact H1].
-  Qed.
-
-  Lemma unpurged_lint_rel a a' : NR a a' -> Forall2 (ldiag_rel RN) (unpurged_lint a) (unpurged_lint a').
-  Proof.
-    intro H. unfold unpurged_lint, unpurged_lint_k.
-    apply (run2_rel unp_rel NR (unp_visit upper) NR_sim NR_children).
+    intro H. unfold unpurged_lint.
+    apply (run2_rel out_rel NR unp_visit NR_sim NR_children).
     - intros c c' anc anc' n n' s s' _ _. apply unp_visit_rel.
-    - apply unp_end_rel.
+    - auto.
     - exact H.
-    - split; constructor.
+    - constructor.
   Qed.
 
   (* --- the inherited rule --- *)
-  Definition meth_rel (m m' : node) : Prop := node_sim m m' /\ RN (nident m) (nident m').
-  Definition inh_rel (st st' : inh_state) : Prop :=
-    ih_called st = ih_called st' /\ opt_rel meth_rel (ih_cur st) (ih_cur st') /\
-    Forall2 (ldiag_rel RN) (ih_out st) (ih_out st').
-
-  Lemma inh_check_rel st st' : inh_rel st st' -> inh_rel (inh_check st) (inh_check st').
+  Lemma inh_visit_rel c c' anc anc' n n' o o' : NR n n' -> out_rel o o' ->
+    out_rel (inh_visit c anc n o) (inh_visit c' anc' n' o').
   Proof.
-    destruct st as [ca cu ou], st' as [ca' cu' ou']. unfold inh_rel, inh_check. cbn [ih_called ih_cur ih_out].
-    intros [H1 [H2 H3]]. subst ca'. destruct H2 as [|m m' [Hm Hr]].
-    - split; [reflexivity|]. split; [constructor|exact H3].
-    - rewrite <- (upper_ident_sim _ _ Hm).
-      destruct (in_check_set (upper (nident m)) && negb ca); cbn [ih_called ih_cur ih_out].
-      + split; [reflexivity|]. split; [constructor; split; assumption|].
-        apply Forall2_app2; [exact H3|]. constructor; [|constructor].
-        repeat split; cbn [dcls dsev drng dkey]; auto. apply inh_sel_range_sim. exact Hm.
-      + split; [reflexivity|]. split; [constructor; split; assumption|exact H3].
+    intros Hn Ho. pose proof (NR_sim _ _ Hn) as Hs. unfold inh_visit. cbv zeta.
+    rewrite <- (is_method_sim _ _ Hs). destruct (is_method n) eqn:Em; [|exact Ho].
+    rewrite <- (upper_rs_ci _ _ (node_sim_ident _ _ Hs)), <- (inh_scan_sim _ _ _ Hs).
+    destruct (in_check_set (upper_rs (nident n)) && negb (inh_scan (upper_rs (nident n)) n)); [|exact Ho].
+    apply Forall2_app2; [exact Ho|]. constructor; [|constructor].
+    repeat split; cbn [dcls dsev drng dkey]; [apply inh_sel_range_sim; exact Hs|].
+    apply NR_name; [exact Hn|]. unfold is_method in Em. apply orb_true_iff in Em as [E|E];
+      (eapply is_kind_decl; [exact E|reflexivity]).
   Qed.
 
-  Lemma inh_method_node_rel n n' st st' : NR n n' -> decl_kind (nkind n) = true -> inh_rel st st' ->
-    inh_rel (inh_method_node n st) (inh_method_node n' st').
-  Proof.
-    intros Hn Hk Hst. unfold inh_method_node. cbv zeta. destruct (inh_check_rel _ _ Hst) as [_ [_ H3]].
-    repeat split; cbn [ih_called ih_cur ih_out]; auto. constructor. split; [apply NR_sim; exact Hn|].
-    apply NR_name; assumption.
-  Qed.
-
-  Lemma inh_visit_rel c c' anc anc' n n' st st' : ctx_rel NR c c' -> NR n n' -> inh_rel st st' ->
-    inh_rel (inh_visit c anc n st) (inh_visit c' anc' n' st').
-  Proof.
-    intros Hc Hn Hst. pose proof (NR_sim _ _ Hn) as Hs. unfold inh_visit. cbv zeta.
-    rewrite <- !(node_sim_is_kind _ _ _ Hs), <- (is_pass_terminal_sim _ _ Hs), <- (is_inherited_op_sim _ _ Hs).
-    assert (H1 : inh_rel (if is_kind KAstProcedure n then inh_method_node n st else st)
-                         (if is_kind KAstProcedure n then inh_method_node n' st' else st')).
-    { destruct (is_kind KAstProcedure n) eqn:E; [|exact Hst]. apply inh_method_node_rel; auto.
-      eapply is_kind_decl; [exact E|reflexivity]. }
-    revert H1. generalize (if is_kind KAstProcedure n then inh_method_node n st else st)
-                          (if is_kind KAstProcedure n then inh_method_node n' st' else st'). intros s1 s1' H1.
-    assert (H2 : inh_rel (if is_kind KAstFunction n then inh_method_node n s1 else s1)
-                         (if is_kind KAstFunction n then inh_method_node n' s1' else s1')).
-    { destruct (is_kind KAstFunction n) eqn:E; [|exact H1]. apply inh_method_node_rel; auto.
-      eapply is_kind_decl; [exact E|reflexivity]. }
-    revert H2. generalize (if is_kind KAstFunction n then inh_method_node n s1 else s1)
-                          (if is_kind KAstFunction n then inh_method_node n' s1' else s1'). intros s2 s2' H2.
-    assert (H3 : inh_rel (if is_pass_terminal n then mkInh true (ih_cur s2) (ih_out s2) else s2)
-                         (if is_pass_terminal n then mkInh true (ih_cur s2') (ih_out s2') else s2')).
-    { destruct (is_pass_terminal n); [|exact H2]. destruct H2 as [_ [A B]].
-      repeat split; cbn [ih_called ih_cur ih_out]; assumption. }
-    revert H3. generalize (if is_pass_terminal n then mkInh true (ih_cur s2) (ih_out s2) else s2)
-                          (if is_pass_terminal n then mkInh true (ih_cur s2') (ih_out s2') else s2').
-    intros s3 s3' H3. destruct (is_inherited_op n); [|exact H3].
-    destruct Hc as [_ Hm]. destruct Hm as [|cm cm' Hcm]; [exact H3|].
-    rewrite <- (inh_names_sim _ _ _ _ (NR_sim _ _ Hcm) Hs). destruct (inh_names cm n); [|exact H3].
-    destruct H3 as [_ [A B]]. repeat split; cbn [ih_called ih_cur ih_out]; assumption.
-  Qed.
-
-  Lemma inherited_lint_rel a a' : NR a a' -> Forall2 (ldiag_rel RN) (inherited_lint a) (inherited_lint a').
+  Lemma inherited_lint_rel a a' : NR a a' -> out_rel (inherited_lint a) (inherited_lint a').
   Proof.
     intro H. unfold inherited_lint.
-    assert (L : inh_rel (run2 inh_visit inh_check a (mkInh false None []))
-                        (run2 inh_visit inh_check a' (mkInh false None []))).
-    { apply (run2_rel inh_rel NR inh_visit NR_sim NR_children).
-      - intros c c' anc anc' n n' s s' Hc _. apply inh_visit_rel. exact Hc.
-      - apply inh_check_rel.
-      - exact H.
-      - repeat split; constructor. }
-    apply L.
+    apply (run2_rel out_rel NR inh_visit NR_sim NR_children).
+    - intros c c' anc anc' n n' s s' _ _. apply inh_visit_rel.
+    - auto.
+    - exact H.
+    - constructor.
   Qed.
 End V2.
 
@@ -522,7 +500,7 @@ Qed.
 (* the whole report *)
 Theorem lints_exact : forall a a', node_sim a a' -> decl_exact a a' -> lints a = lints a'.
 Proof.
-  intros a a' H He. unfold lints, lints_k, lints_v2_k. fold unpurged_lint.
+  intros a a' H He. unfold lints, lints_v2.
   rewrite (ret_type_lint_eq _ _ H), (unpurged_lint_decl_exact _ _ H He), (naming_lint_decl_exact _ _ H He),
           (inherited_lint_decl_exact _ _ H He). reflexivity.
 Qed.
